@@ -18,7 +18,7 @@ Record lprec := {
 
 Definition to_prec (p : lprec) : prec :=
   {| p_peptide := l_peptide p; p_proteins := []; p_charge := l_charge p; p_exp := l_expname p;
-     p_intensity := l_intensity p; p_pep := l_pep p; p_silac := l_silac p; p_id := 0%Z |}.
+     p_intensity := l_intensity p; p_pep := l_pep p; p_silac := l_silac p; p_tmt := []; p_id := 0%Z |}.
 
 (* ---------------- _getPeptideIntensities ---------------- *)
 Definition l_used (cut : Q) (p : lprec) : bool :=
